@@ -699,6 +699,10 @@ int sx127x_rx_set_lna_boost_hf(bool enable, sx127x *device) {
 
 int sx127x_lora_set_bandwidth(sx127x_bw_t bandwidth, sx127x *device) {
   CHECK_MODULATION(device, SX127x_MODULATION_LORA);
+  // reject anything but the bandwidth codes of the chip before touching it
+  if ((bandwidth & 0b00001111) != 0 || bandwidth > SX127x_BW_500000) {
+    return SX127X_ERR_INVALID_ARG;
+  }
   ERROR_CHECK(sx127x_append_register(REGMODEMCONFIG1, bandwidth, 0b00001111, &device->spi_device));
   return sx127x_reload_low_datarate_optimization(device);
 }
@@ -708,6 +712,9 @@ int sx127x_lora_set_modem_config_2(sx127x_sf_t spreading_factor, sx127x *device)
   if (spreading_factor == SX127x_SF_6 && !device->use_implicit_header) {
     return SX127X_ERR_INVALID_ARG;
   }
+  // the low data rate optimisation below needs a known bandwidth: fail before the first write otherwise
+  uint32_t bandwidth;
+  ERROR_CHECK(sx127x_lora_get_bandwidth(device, &bandwidth));
   uint8_t detection_optimize;
   uint8_t detection_threshold;
   if (spreading_factor == SX127x_SF_6) {
